@@ -15,11 +15,13 @@ fn main() {
         "C07" => dispatch::<props::c07::C07>(&args, &verif),
         "C08" => dispatch::<props::c08::C08>(&args, &verif),
         "C09" => dispatch::<props::c09::C09>(&args, &verif),
+        "C10" => dispatch::<props::c10::C10>(&args, &verif),
         "C11" => dispatch::<props::c11::C11>(&args, &verif),
         "C12" => dispatch::<props::c12::C12>(&args, &verif),
         "C13" => dispatch::<props::c13::C13>(&args, &verif),
         "C14" => dispatch::<props::c14::C14>(&args, &verif),
         "C15" => dispatch::<props::c15::C15>(&args, &verif),
+        "C16" => dispatch::<props::c16::C16>(&args, &verif),
         "C17" => dispatch::<props::c17::C17>(&args, &verif),
         "C18" => dispatch::<props::c18::C18>(&args, &verif),
         "C19" => dispatch::<props::c19::C19>(&args, &verif),
